@@ -626,6 +626,26 @@ def url_case(ctx, workdir):
                          names, [["alpha"], ["beta"], ["alpha"]])
         finally:
             shutil.rmtree(d, ignore_errors=True)
+    # ... nor do locations that differ only in characters outside ASCII (document-store names may hold any character)
+    for policy in (0, 1):
+        for cls in (suds.cache.ObjectCache, suds.cache.DocumentCache):
+            d = tempfile.mkdtemp(dir=workdir)
+            try:
+                store = suds.store.DocumentStore()
+                locs = ["api/sch\u00e9ma.wsdl", "api/sch\u00e8ma.wsdl", "api/schma.wsdl", "api/sche\u0301ma.wsdl"]
+                store.update({l: wsdl("op%d" % i) for i, l in enumerate(locs)})
+                names = []
+                for l in locs + locs[:2]:
+                    c = suds.client.Client("suds://" + l, documentStore=store, cache=cls(location=d), cachingpolicy=policy)
+                    names.append([m[0] for m in c.sd[0].ports[0][1]])
+                ctx.case(("url-non-ascii", policy, cls.__name__), True)
+                want = [["op%d" % i] for i in (0, 1, 2, 3, 0, 1)]
+                if names != want:
+                    ctx.fail("documents at URLs differing only in letter case share a cache entry",
+                             {"cachingpolicy": policy, "cache": cls.__name__, "locations": locs,
+                              "differ_in": "characters outside ASCII"}, names, want)
+            finally:
+                shutil.rmtree(d, ignore_errors=True)
 
 
 def real_clock_and_file_urls(ctx, workdir):
